@@ -21,10 +21,11 @@ U32, I32, U128, I128, USIZE, ISIZE = S("u32"), S("i32"), S("u128"), S("i128"), S
 NZU16, NZU64, NZI64, NZI128 = S("NonZeroU16"), S("NonZeroU64"), S("NonZeroI64"), S("NonZeroI128")
 
 
-def field(ident, ty, rename=None, default=None, skip=False, mapfn=False, frm=None, missing_fn=False, error=None):
-    """default: None | "trait" | ("expr", rust_expr, rv)"""
+def field(ident, ty, rename=None, default=None, skip=False, mapfn=False, frm=None, missing_fn=False, error=None, param=None, needs=False):
+    """default: None | "trait" | ("expr", rust_expr, rv); param: the field's Rust type is this type parameter of the definition
+    (instantiated once, with `ty`); needs: the field carries `needs_predicate` (else the container carries a where_predicate)"""
     return {"ident": ident, "ty": ty, "rename": rename, "default": default, "skip": skip, "map": mapfn, "from": frm,
-            "missing_fn": missing_fn, "error": error}
+            "missing_fn": missing_fn, "error": error, "param": param, "needs": needs}
 
 
 def struct(name, fields, rename_all=None, deny=None, error=None, validate=False, cfrom=None):
@@ -127,6 +128,10 @@ DEFS = [
            validate=True),
     enum("GEnum", [variant("A"), variant("B", [field("x", U8, frm={"kind": "try", "ty": U8, "ref": True})])], tag="t", validate=True),
     struct("GCTry", [], cfrom={"kind": "try", "ty": ("vec", U8), "ref": False}),
+    # generic payload types: the derive adds the bound through needs_predicate (field) / where_predicate (container)
+    struct("GenNeeds", [field("item", U8, param="T", needs=True), field("count", U8, default="trait")], error="RecErr"),
+    struct("GenWhere", [field("first_item", ("vec", BOOL), param="T"), field("other", ("opt", U8), param="U")], rename_all="camelCase", deny="default"),
+    enum("GenEnum", [variant("Unit"), variant("Holds", [field("inner", U8, param="T", needs=True)])], tag="kind", error="RecErr"),
     struct("FNest", [field("inner", ("ref", "FTry")), field("list", ("vec", ("ref", "FValidate"))), field("cf", ("ref", "CTry"))], error="RecErr"),
 ]
 
@@ -158,5 +163,6 @@ ENTRIES = [
     ("vec", ("cs", "String")), ("hset", ("opt", U8)),
     ("ref", "FFrom"), ("ref", "FTry"), ("ref", "FTryF"), ("ref", "FMap"), ("ref", "FValidate"), ("ref", "FMissing"), ("ref", "FDenyFn"), ("ref", "FAll"),
     ("ref", "GTry"), ("ref", "GEnum"), ("ref", "GCTry"), ("vec", ("ref", "GTry")),
+    ("ref", "GenNeeds"), ("ref", "GenWhere"), ("ref", "GenEnum"), ("vec", ("ref", "GenNeeds")),
     ("ref", "CFrom"), ("ref", "CFromV"), ("ref", "CTry"), ("ref", "EValidate"), ("ref", "EUnitValidate"), ("ref", "FNest"), ("vec", ("ref", "FTry")),
 ]
